@@ -1,5 +1,6 @@
 import Driver.Pure
 import Driver.Project
+import Driver.Run
 /-! Line-protocol driver: one JSON request per line in, one JSON answer per line out. -/
 open Lean Laze
 
@@ -13,6 +14,7 @@ def dispatch (j : Json) : Json :=
   | "env_assign" => handleEnvAssign j
   | "is_allowed" => handleIsAllowed j
   | "gen" => handleGen j
+  | "run" => handleRun j
   | op => Json.mkObj [("bad", "unknown op " ++ op)]
 
 partial def loop (h : IO.FS.Stream) (out : IO.FS.Stream) : IO Unit := do
